@@ -43,6 +43,8 @@ inductive Err
 inductive Cmd (P : Type)
   | revParseHead | revParseSym | revParseRev | add (p : P) | writeTree | catFile | commitTree
   | resetSoft | updateRef (target : Str) | resetHard | clean
+  | revParseTarget (target : Str)   -- `rev-parse --verify --quiet <target>` (only when pushing)
+  | push (target : Str)             -- `push -- origin <target>`
   deriving DecidableEq, Repr
 
 /-- repository + handler -/
